@@ -241,6 +241,7 @@ def engine_check(prop, scs, monitors, tier, seed, bound_for=None, limits=None, m
     for sc in scs:
         if "expect" not in sc:
             annotate(sc)
+    limits = dict(limits, only=list(monitors))
     jobs = [(sc, bound_for(sc) if bound_for else None, limits) for sc in scs]
     outs = explore_many("checks.monsets", monset, jobs, seed)
     tot, samples = collect(cr, outs, {s["name"]: s for s in scs}, lambda v: v["monitor"] in monitors, monset)
